@@ -283,6 +283,6 @@ def validate(number, separator=''):
 def is_valid(number, separator=''):
     """Check if the number provided is a valid GS1-128."""
     try:
-        return bool(validate(number))
+        return bool(validate(number, separator))
     except ValidationError:
         return False
